@@ -218,7 +218,8 @@ class Typestate(object):
             if p not in tracked:
                 bump(fld, 'rel' if kind == 'release' else 'arm')
                 if kind == 'release' and not (t & frozenset([A, E])) and \
-                        (self._full_loop(fname, node, p) or self._chain_loop(fname, node, p, res)):
+                        (self._full_loop(fname, node, p) or self._chain_loop(fname, node, p, res)) and \
+                        self._released_at_iteration_end(fname, node, p, fld, res):
                     relall.setdefault(fld, True)
                 else:
                     relall[fld] = False
@@ -230,6 +231,39 @@ class Typestate(object):
                 anyfx[fld] = 'relall'
         self.summ[fname] = (paths, anyfx)
         return self.summ[fname]
+
+    def _released_at_iteration_end(self, fname, node, p, fld, res):
+        """at the end of every iteration of the loop around `node` (before the index / cursor advances) the
+        instance p is released on every path - including the paths that skip the release block"""
+        g = self.m.cfg(fname)
+        if not node.loops:
+            return False
+        lp = g.loops[node.loops[-1]]
+        # nodes that advance the loop variable / cursor: sources of back edges or the for-increment
+        ends = set()
+        for nid in lp.nodes:
+            for (t, lab) in g.nodes[nid].succ:
+                if t == lp.head:
+                    ends.add(nid)
+        if not ends:
+            return False
+        deps = res.pathinfo[p][0]
+        for e in ends:
+            # state before the statement that changes a variable the path depends on
+            cur = e
+            nd = g.nodes[cur]
+            st = res.IN.get(cur)
+            # walk back over statements that assign the path's variables (i++ / cursor = cursor->Next)
+            while st is not None and ('P', p) not in st and len(nd.pred) == 1:
+                cur = nd.pred[0][0]
+                nd = g.nodes[cur]
+                st = res.IN.get(cur)
+            if st is None:
+                continue
+            tags = st.get(('P', p))
+            if tags is None or not tags <= frozenset([R]):
+                return False
+        return True
 
     def _chain_loop(self, fname, node, p, res):
         """the store at `node` to cursor->H sits in `while (cursor != 0) { ...; cursor = cursor->Next; }`
